@@ -671,68 +671,116 @@ fn crash_record(ctx: &mut Ctx) -> String {
     s
 }
 
+fn run_one_step(spec: &StepSpec, stub: &str) -> StepResult {
+    let mut ctx = Box::new(Ctx::new(&spec.root, stub, spec.hash_seed, spec.readdir_seed));
+    ctx.plan = spec.plan.clone();
+    ctx.crash_at = spec.crash_at;
+    ctx.disk_budget = spec.disk_budget;
+    if spec.clock != 0 {
+        ctx.clock_value = spec.clock;
+    }
+    if spec.pid != 0 {
+        ctx.pid_value = spec.pid;
+    }
+    let dir = if spec.dir.is_empty() { PathBuf::from(&spec.root) } else { PathBuf::from(&spec.root).join(&spec.dir) };
+    let args = mamba::Arguments { annotate: spec.annotate };
+    let ctxp = Box::into_raw(ctx);
+    PANIC_MSG.with(|m| m.borrow_mut().clear());
+    simlibc::set_current(ctxp);
+    let r = catch_unwind(AssertUnwindSafe(|| mamba::transpile_dir(&dir, spec.src.as_deref(), spec.target.as_deref(), &args)));
+    simlibc::set_current(std::ptr::null_mut());
+    let ctx = unsafe { Box::from_raw(ctxp) };
+    let mut res = StepResult {
+        write_set: ctx.write_set.clone(),
+        fired: ctx.fired.clone(),
+        counters: ctx.counters.clone(),
+        calls: ctx.seq,
+        log_digest: digest_strs(&ctx.log),
+        log: if spec.keep_log { ctx.log.clone() } else { vec![] },
+        log_seq: if spec.keep_log { ctx.log_seq.clone() } else { vec![] },
+        clock_calls: ctx.clock_calls,
+        pid_calls: ctx.pid_calls,
+        cwd_calls: ctx.cwd_calls,
+        foreign_writes: ctx.foreign_writes,
+        bytes_written: ctx.bytes_written,
+        ..Default::default()
+    };
+    match r {
+        Ok(Ok(p)) => {
+            res.outcome = "ok".into();
+            res.ok_path = ctx.canon(&p.to_string_lossy());
+        }
+        Ok(Err(d)) => {
+            res.outcome = "err".into();
+            res.diags = d.iter().map(|s| s.replace(&spec.root, "$ROOT")).collect();
+        }
+        Err(_) => {
+            res.outcome = "panic".into();
+            res.panic_msg = PANIC_MSG.with(|m| m.borrow().clone());
+        }
+    }
+    res
+}
+
 pub fn exec_step(spec: &StepSpec) -> StepResult {
     install_panic_hook();
     simlibc::CRASH_WRITER.store(crash_record as fn(&mut Ctx) -> String as *mut (), std::sync::atomic::Ordering::SeqCst);
     let stub = stub_dir();
     let spec = spec.clone();
-    let h = std::thread::Builder::new()
-        .name("step".into())
+    let h = std::thread::Builder::new().name("step".into()).stack_size(8 << 20).spawn(move || run_one_step(&spec, &stub)).expect("spawn step thread");
+    h.join().expect("step thread")
+}
+
+/// A session: step specifications arrive one per line on stdin, each is run by the SAME
+/// thread of this process (whatever the code under test keeps in statics or thread-locals
+/// lives on from step to step, as in a watch mode or a language server), and answered with
+/// one result line.  A simulated crash ends the process (the driver starts a new session).
+pub fn exec_session() {
+    use std::io::{BufRead, Write};
+    install_panic_hook();
+    simlibc::CRASH_WRITER.store(crash_record as fn(&mut Ctx) -> String as *mut (), std::sync::atomic::Ordering::SeqCst);
+    let stub = stub_dir();
+    let (tx, rx) = std::sync::mpsc::channel::<StepSpec>();
+    let (rtx, rrx) = std::sync::mpsc::channel::<StepResult>();
+    let worker = std::thread::Builder::new()
+        .name("session".into())
         .stack_size(8 << 20)
         .spawn(move || {
-            let mut ctx = Box::new(Ctx::new(&spec.root, &stub, spec.hash_seed, spec.readdir_seed));
-            ctx.plan = spec.plan.clone();
-            ctx.crash_at = spec.crash_at;
-            ctx.disk_budget = spec.disk_budget;
-            if spec.clock != 0 {
-                ctx.clock_value = spec.clock;
-            }
-            if spec.pid != 0 {
-                ctx.pid_value = spec.pid;
-            }
-            let dir = if spec.dir.is_empty() { PathBuf::from(&spec.root) } else { PathBuf::from(&spec.root).join(&spec.dir) };
-            let args = mamba::Arguments { annotate: spec.annotate };
-            let ctxp = Box::into_raw(ctx);
-            PANIC_MSG.with(|m| m.borrow_mut().clear());
-            simlibc::set_current(ctxp);
-            let r = catch_unwind(AssertUnwindSafe(|| {
-                mamba::transpile_dir(&dir, spec.src.as_deref(), spec.target.as_deref(), &args)
-            }));
-            simlibc::set_current(std::ptr::null_mut());
-            let ctx = unsafe { Box::from_raw(ctxp) };
-            let mut res = StepResult {
-                write_set: ctx.write_set.clone(),
-                fired: ctx.fired.clone(),
-                counters: ctx.counters.clone(),
-                calls: ctx.seq,
-                log_digest: digest_strs(&ctx.log),
-                log: if spec.keep_log { ctx.log.clone() } else { vec![] },
-                log_seq: if spec.keep_log { ctx.log_seq.clone() } else { vec![] },
-                clock_calls: ctx.clock_calls,
-                pid_calls: ctx.pid_calls,
-                cwd_calls: ctx.cwd_calls,
-                foreign_writes: ctx.foreign_writes,
-                bytes_written: ctx.bytes_written,
-                ..Default::default()
-            };
-            match r {
-                Ok(Ok(p)) => {
-                    res.outcome = "ok".into();
-                    res.ok_path = ctx.canon(&p.to_string_lossy());
-                }
-                Ok(Err(d)) => {
-                    res.outcome = "err".into();
-                    res.diags = d.iter().map(|s| s.replace(&spec.root, "$ROOT")).collect();
-                }
-                Err(_) => {
-                    res.outcome = "panic".into();
-                    res.panic_msg = PANIC_MSG.with(|m| m.borrow().clone());
+            for spec in rx {
+                let r = run_one_step(&spec, &stub);
+                if rtx.send(r).is_err() {
+                    break;
                 }
             }
-            res
         })
-        .expect("spawn step thread");
-    h.join().expect("step thread")
+        .expect("spawn session thread");
+    let stdin = std::io::stdin();
+    for line in stdin.lock().lines() {
+        let line = match line {
+            Ok(l) => l,
+            Err(_) => break,
+        };
+        if line.trim().is_empty() {
+            continue;
+        }
+        let spec: StepSpec = match serde_json::from_str(&line) {
+            Ok(s) => s,
+            Err(_) => break,
+        };
+        if tx.send(spec).is_err() {
+            break;
+        }
+        match rrx.recv() {
+            Ok(r) => {
+                let mut out = std::io::stdout().lock();
+                let _ = writeln!(out, "{}", serde_json::to_string(&r).unwrap());
+                let _ = out.flush();
+            }
+            Err(_) => break,
+        }
+    }
+    drop(tx);
+    let _ = worker.join();
 }
 
 /// Seam self-check: inside a context, a File/HashSet/read_dir round trip must go through
